@@ -376,11 +376,8 @@ Definition v2_epoch (q : quirks) (rate : option Q) (obs_fields : list fieldspec)
            | None => None
            | Some tf =>
                let first_year := take 4 tf in
-               let last_ok := match meta_str "time_last_obs" s with
-                              | Some tl => String.eqb (take 4 tl) first_year
-                              | None => true end in
-               if negb last_ok then None
-               else match parse_int (take 2 first_year ++ zfill 2 year) with
+               (* a TIME OF LAST OBS in another year only produces a log message (midgard's log.fatal does not stop) *)
+               match parse_int (take 2 first_year ++ zfill 2 year) with
                     | Some y =>
                         match time_of vals y, parse_int flag, float_nan (lookup "rcv_clk_offset" vals),
                               parse_int (lookup "num_sat" vals) with
